@@ -109,7 +109,7 @@ Qed.
 
 Lemma close_writer_wsame w w' f : wsame w w' -> run (close_writer hash w') f = run (close_writer hash w) f.
 Proof.
-  intros [Hk [Ha [Ht [Hm [Hp [Hwr Hd]]]]]]. unfold close_writer. rewrite Ha, Ht, Hm, Hp, Hd. reflexivity.
+  intros [Hk [Ha [Ht [Hm [Hp [Hwr Hd]]]]]]. unfold close_writer, trim, publish. rewrite Ha, Ht, Hm, Hp, Hd. reflexivity.
 Qed.
 
 (* the commit of two writers that differ only in the declared size, when the declaration is the truth *)
